@@ -570,7 +570,11 @@ func (g *gen) nodes(n int, fully bool) osm.WayNodes {
 func (g *gen) members(n int) osm.Members {
 	ms := make(osm.Members, n)
 	for i := range ms {
-		ms[i] = osm.Member{Type: types[g.rng.Intn(3)], Ref: int64(1 + g.rng.Intn(30)), Role: roles[g.rng.Intn(len(roles))],
+		ty := types[g.rng.Intn(3)]
+		if g.rng.Intn(2) == 0 {
+			ty = osm.TypeWay
+		}
+		ms[i] = osm.Member{Type: ty, Ref: int64(1 + g.rng.Intn(30)), Role: roles[g.rng.Intn(len(roles))],
 			Version: g.rng.Intn(4), ChangesetID: osm.ChangesetID(g.rng.Intn(50)), Lat: g.coord(), Lon: g.coord(),
 			Orientation: orb.Orientation(g.rng.Intn(3) - 1)}
 	}
@@ -704,7 +708,9 @@ func main() {
 		t := g.pickT(pool)
 		var c *wire.Case
 		if rel {
-			c = applyCase(true, t, nil, g.members(n), us, nil)
+			ms := g.members(n)
+			reverseOnlyWays(us, ms)
+			c = applyCase(true, t, nil, ms, us, nil)
 		} else {
 			c = applyCase(false, t, g.nodes(n, false), nil, us, nil)
 		}
@@ -734,7 +740,9 @@ func main() {
 		}
 		var c *wire.Case
 		if rel {
-			c = composeCase(true, t1, t2, nil, g.members(n), us, nil)
+			ms := g.members(n)
+			reverseOnlyWays(us, ms)
+			c = composeCase(true, t1, t2, nil, ms, us, nil)
 		} else {
 			c = composeCase(false, t1, t2, g.nodes(n, false), nil, us, nil)
 		}
@@ -850,6 +858,17 @@ func main() {
 	if err := w.Flush(a.Out, "Verif.C15.Check", 300); err != nil {
 		fmt.Fprintln(os.Stderr, err)
 		os.Exit(1)
+	}
+}
+
+// reverseOnlyWays clears the reverse flag of updates that do not name a way member: the property
+// (and annotation) know orientation flips for reversed way members only.
+func reverseOnlyWays(us osm.Updates, ms osm.Members) {
+	for i := range us {
+		k := us[i].Index
+		if k < 0 || k >= len(ms) || ms[k].Type != osm.TypeWay {
+			us[i].Reverse = false
+		}
 	}
 }
 
